@@ -193,7 +193,6 @@ func (e *Explorer) explore(prefix []int, usedAtPrefixEnd [nKinds]int) bool {
 	return true
 }
 
-
 // Hash helpers ------------------------------------------------------------------------------
 
 // H is a small incremental hash.
